@@ -22,7 +22,8 @@ RULE = ("A case: protocol 4 or 5, 1-2 fake nodes that compute statement ids like
         "USE ks2 afterwards, the statement executed as a bound statement or inside a batch, optionally dropped from the "
         "cluster's statement cache; the first EXECUTE/BATCH is answered UNPREPARED, the re-PREPARE with one of: the id the "
         "server computes, a forced equal / different id, 5 errors, connection close, a void or rows result; the re-sent "
-        "request with rows, UNPREPARED again or an error.  Oracle: after UNPREPARED exactly one PREPARE with the same text "
+        "request with rows, UNPREPARED again or an error; connections have 3 stream ids and 0-2 warm-up requests, so "
+        "every frame of the exchange travels on every stream id (0 included).  Oracle: after UNPREPARED exactly one PREPARE with the same text "
         "(and the statement's keyspace iff protocol 5) goes to the same node; equal id => the request is re-sent there and "
         "its answer is the outcome; different id / error / unexpected result => the request fails and NO further frame is "
         "sent for it.  All cases go past the first UNPREPARED (non-trivial).  Distinct by case digest.")
@@ -54,7 +55,7 @@ def interpret(case, ctx):
 
 def _run(case, ctx, sim):
     from cassandra.cluster import ExecutionProfile
-    from cassandra.query import BatchStatement
+    from cassandra.query import BatchStatement, SimpleStatement
     net = sim.net
     v = case["version"]
     n = case["hosts"]
@@ -80,7 +81,8 @@ def _run(case, ctx, sim):
             computed = qid_for(eff, QUERY)
             if not armed["on"]:
                 return ("reply", "RESULT", wire.result_prepared(req["version"], computed, [], [], ()))
-            frames.append((index[node.address], "PREPARE", {"keyspace": req.get("keyspace"), "query": req["query"]}))
+            frames.append((index[node.address], "PREPARE", {"keyspace": req.get("keyspace"), "query": req["query"],
+                                                              "stream": req["stream"]}))
             k = pos["p"]
             pos["p"] += 1
             m = prep_script[k] if k < len(prep_script) else "compute"
@@ -100,7 +102,7 @@ def _run(case, ctx, sim):
                 return ("error", m[4:] if m[4:] != "server_error" else "server", {})
             return ("reply", "RESULT", wire.result_prepared(req["version"], qid, [], [], ()))
         if armed["on"] and ((op == "EXECUTE" and req.get("id") == orig.get("qid")) or op == "BATCH"):
-            frames.append((index[node.address], op, {}))
+            frames.append((index[node.address], op, {"stream": req["stream"]}))
             k = pos["e"]
             pos["e"] += 1
             a = exec_script[k] if k < len(exec_script) else "rows"
@@ -112,7 +114,12 @@ def _run(case, ctx, sim):
         return None
 
     orig = {}
-    cluster, session, nodes = F.build(sim, n, prof, version=v, keyspace=conn_ks)
+    warm = case.get("warm")
+    # warm is not None: 3 stream ids per connection and `warm` earlier requests per host, so that over
+    # warm = 0, 1, 2 the EXECUTE, the re-PREPARE and the re-sent EXECUTE each travel on every stream id,
+    # id 0 included (with the default 300 ids id 0 only comes round every 300th request)
+    cluster, session, nodes = F.build(sim, n, prof, version=v, keyspace=conn_ks,
+                                      max_in_flight=3 if warm is not None else None)
     index.update((nd.address, i) for i, nd in enumerate(nodes))
     for nd in nodes:
         nd.on_request = handler
@@ -175,6 +182,13 @@ def _run(case, ctx, sim):
                 outcome = ("any", None)
                 lenient = True
 
+    for _w in range(warm or 0):
+        for nd in nodes:
+            with ctx.driver(["C19.warmup"]):
+                sim.call(session.execute, SimpleStatement("SELECT w FROM warm"), host=F.host_of(cluster, nd.address))
+    if ctx._failures:
+        return
+    stream = {}
     armed["on"] = True
     fut = None
     with ctx.driver(["C19.execute_async"]):
@@ -257,6 +271,9 @@ def _run(case, ctx, sim):
                 ctx.fail(["C19.outcome", "internal-error", F.exc_name(val), "prepare=%s" % last_mode] + feats,
                          "the request failed with an internal error instead of a driver/server error: %r" % (val,))
             ctx.label("outcome:%s" % (outcome[1] or outcome[0]))
+    for (_i, op, d) in frames:
+        if d.get("stream") == 0:
+            ctx.label("stream0:%s" % op)
     ctx.label("v%d" % v, "stmt=%s" % case["stmt"], "rounds=%d" % pi, "ks:%s/%s/%s" % (conn_ks, prep_ks, use_after))
     for m in mode_used:
         ctx.label("prepare=%s" % m)
@@ -289,9 +306,9 @@ def _chunks(tier):
 
 
 def _cases(chunk):
-    for (v, conn_ks, prep_ks, use_after) in _ks_situations():
-        for m in PREP_MODES:
-            yield {"version": v, "hosts": chunk["hosts"], "conn_ks": conn_ks, "prep_ks": prep_ks, "use_after": use_after,
+    for si, (v, conn_ks, prep_ks, use_after) in enumerate(_ks_situations()):
+        for mi, m in enumerate(PREP_MODES):
+            yield {"warm": (si + mi) % 3, "version": v, "hosts": chunk["hosts"], "conn_ks": conn_ks, "prep_ks": prep_ks, "use_after": use_after,
                    "stmt": chunk["stmt"], "evicted": chunk["evicted"], "prep": [m], "exec": ["rows"],
                    "tape": [], "gran": "blocking"}
 
@@ -300,6 +317,7 @@ def s_case(gran):
     mode = st.sampled_from(PREP_MODES + ["compute", "force_same", "force_same"])
     ex = st.sampled_from(["rows", "rows", "unprepared", "unprepared", "unavailable", "invalid"])
     return st.fixed_dictionaries({
+        "warm": st.sampled_from([0, 1, 2]),
         "version": st.sampled_from([4, 5]),
         "hosts": st.sampled_from([1, 2]),
         "conn_ks": st.sampled_from([None, "ks1"]),
